@@ -170,6 +170,10 @@ static void applyVar(State& s, const string& x, int v) {
                                : (const MobilizedBody&)y.b1;
         // position-level locks also CHANGE q and u (documented); they belong to C10, not here
         if (v == 1) { if (b == "vel") m.lock(s, Motion::Velocity); else m.lock(s, Motion::Acceleration); }
+        else if (v == 2 && b == "acc") {      // a third value: the acceleration prescribed to a NON-ZERO value
+            Vector a(m.getNumU(s)); for (int i = 0; i < a.size(); ++i) a[i] = 2.5 - i;
+            m.lockAt(s, a, Motion::Acceleration);
+        }
         else m.unlock(s);
     } else if (x == "con") {
         const Constraint& c = b == "pip" ? (const Constraint&)y.pip : b == "ccoord" ? (const Constraint&)y.ccoord
